@@ -249,6 +249,10 @@ func (e *Exec) evalBuiltin(st *State, name string, call *ast.CallExpr) []Term {
 		}
 		e.oblige(st, "make", "", And(Le(IntLit(0), n), Le(n, c), Le(c, IntLit(1<<47))), "make: 0 <= len <= cap within the runtime limit: "+e.src(call), call.Pos())
 		ref := e.allocRef(st, "make")
+		if isObjElem(sl.Elem()) {
+			e.objRangeWrite(st, sl.Elem(), ref, IntLit(0), c, Term{}, Term{})
+			return []Term{e.bind("mk", MkSlice(ref, IntLit(0), n, c))}
+		}
 		key := elemKey(sl.Elem())
 		e.heapInit(key, sl.Elem())
 		m := e.heapMetas[key]
@@ -281,6 +285,35 @@ func (e *Exec) needStrlen() {
 }
 
 // checkFrameRange: stores into [lo,hi) of the backing array ref.
+// checkFrameRangeT: a store into the elements [lo,hi) of the backing array ref of a slice with element type elemT.
+func (e *Exec) checkFrameRangeT(st *State, elemT types.Type, ref, lo, hi Term, p token.Pos) {
+	if !isObjElem(elemT) {
+		e.checkFrameRange(st, elemKey(elemT), ref, lo, hi, p)
+		return
+	}
+	if e.noFrame || e.contract == nil {
+		return
+	}
+	e.allFields(elemT, func(owner types.Type, f *types.Var) {
+		key := fieldKey(owner, f.Name())
+		if e.dry > 0 {
+			e.dryStores = append(e.dryStores, dryStore{key, ref})
+		}
+		allowed := []Term{Ge(ref, e.alloc0), Ge(lo, hi)}
+		for _, m := range e.modRefs {
+			if m.key != key {
+				continue
+			}
+			if m.any {
+				allowed = append(allowed, True)
+			} else if m.earr.S != "" {
+				allowed = append(allowed, And(m.when(), Eq(ref, m.earr), Le(m.lo, lo), Le(hi, m.hi)))
+			}
+		}
+		e.oblige(st, "frame", "", Or(allowed...), "range store allowed by modifies: elements' "+key, p)
+	})
+}
+
 func (e *Exec) checkFrameRange(st *State, key string, ref, lo, hi Term, p token.Pos) {
 	if e.dry > 0 {
 		e.dryStores = append(e.dryStores, dryStore{key, ref})
@@ -302,10 +335,46 @@ func (e *Exec) checkFrameRange(st *State, key string, ref, lo, hi Term, p token.
 	e.oblige(st, "frame", "", Or(allowed...), "range store allowed by modifies: "+key, p)
 }
 
+// objRangeWrite gives the elements [dlo, dlo+n) of the backing array darr (a slice of structs) new field values:
+// zero values (sarr.S == "") or the fields of the elements [slo, slo+n) of sarr, read in the state before the write.
+func (e *Exec) objRangeWrite(st *State, elemT types.Type, darr, dlo, n Term, sarr, slo Term) {
+	e.needEref()
+	x := Term{"x!o", SInt}
+	in := isErefIn(x, darr, dlo, Add(dlo, n))
+	e.allFields(elemT, func(owner types.Type, f *types.Var) {
+		key := fieldKey(owner, f.Name())
+		e.heapInit(key, f.Type())
+		m := e.heapMetas[key]
+		h := e.heapGet(st, key)
+		nh := e.fresh("fldmap", m.sort)
+		var val Term
+		if sarr.S == "" {
+			val = e.toSort(e.zero(f.Type()), m.vsort)
+		} else {
+			val = Select(h, mk(SInt, "eref", sarr, Add(slo, Sub(mk(SInt, "einv2", x), dlo))), m.vsort)
+		}
+		e.assumps = append(e.assumps, fmt.Sprintf("(assert (forall ((x!o Int)) (! (= %s %s) :pattern (%s))))",
+			Select(nh, x, m.vsort).S, Ite(in, val, Select(h, x, m.vsort)).S, Select(nh, x, m.vsort).S))
+		if sarr.S != "" {
+			// source-directed instance: element j of the source is element dlo + (j - slo) of the destination
+			j := Term{"j!o", SInt}
+			src := Select(h, mk(SInt, "eref", sarr, j), m.vsort)
+			dst := Select(nh, mk(SInt, "eref", darr, Add(dlo, Sub(j, slo))), m.vsort)
+			e.assumps = append(e.assumps, fmt.Sprintf("(assert (forall ((j!o Int)) (! (=> (and (<= %s j!o) (< j!o %s)) (= %s %s)) :weight 8 :pattern (%s))))",
+				slo.S, Add(slo, n).S, src.S, dst.S, src.S))
+		}
+		st.heap[key] = nh
+	})
+}
+
 // writeRange implements copy(d[:n], s[:n]) on the element memory: forward axiom (pattern on
 // the destination) and reverse axiom (pattern on the source, so that "this source element
 // is somewhere in the destination" finds its witness).
 func (e *Exec) writeRange(st *State, elemT types.Type, d, s Term, n Term, p token.Pos) {
+	if isObjElem(elemT) {
+		e.objRangeWrite(st, elemT, SRef(d), SOff(d), n, SRef(s), SOff(s))
+		return
+	}
 	key := elemKey(elemT)
 	e.heapInit(key, elemT)
 	m := e.heapMetas[key]
@@ -348,7 +417,7 @@ func (e *Exec) evalCopy(st *State, call *ast.CallExpr) Term {
 	d := e.eval(st, call.Args[0])
 	s := e.eval(st, call.Args[1])
 	n := e.bind("copyn", Ite(Le(SLen(d), SLen(s)), SLen(d), SLen(s)))
-	e.checkFrameRange(st, elemKey(dt.Elem()), SRef(d), SOff(d), Add(SOff(d), n), call.Pos())
+	e.checkFrameRangeT(st, dt.Elem(), SRef(d), SOff(d), Add(SOff(d), n), call.Pos())
 	e.writeRange(st, dt.Elem(), d, s, n, call.Pos())
 	return n
 }
@@ -392,7 +461,7 @@ func (e *Exec) evalAppend(st *State, call *ast.CallExpr) Term {
 	e.addPC(a, inplace)
 	if !a.dead {
 		dst := MkSlice(SRef(s), SubOff(s, SLen(s)), k, Sub(SCap(s), SLen(s)))
-		e.checkFrameRange(a, key, SRef(s), SOff(dst), Add(SOff(dst), k), call.Pos())
+		e.checkFrameRangeT(a, et, SRef(s), SOff(dst), Add(SOff(dst), k), call.Pos())
 		if t.S != "" {
 			e.writeRange(a, et, dst, t, k, call.Pos())
 		} else {
@@ -405,9 +474,13 @@ func (e *Exec) evalAppend(st *State, call *ast.CallExpr) Term {
 	b := st.clone()
 	e.addPC(b, Not(inplace))
 	if !b.dead {
-		h := e.heapGet(b, key)
-		zero := Term{fmt.Sprintf("((as const %s) %s)", inner, e.zeroElem(et).S), inner}
-		b.heap[key] = e.bindHeap(key, Store(h, nref, zero))
+		if isObjElem(et) {
+			e.objRangeWrite(b, et, nref, IntLit(0), ncap, Term{}, Term{})
+		} else {
+			h := e.heapGet(b, key)
+			zero := Term{fmt.Sprintf("((as const %s) %s)", inner, e.zeroElem(et).S), inner}
+			b.heap[key] = e.bindHeap(key, Store(h, nref, zero))
+		}
 		ns := MkSlice(nref, IntLit(0), newLen, ncap)
 		e.noFrame = true
 		e.writeRange(b, et, MkSlice(nref, IntLit(0), SLen(s), ncap), s, SLen(s), call.Pos())
@@ -581,6 +654,16 @@ func (e *Exec) modLocs(clauses []Clause, env *SpecEnv) []modLoc {
 				if !ok {
 					e.specFail("elems() of a non-slice in modifies")
 				}
+				if isObjElem(sl.Elem()) {
+					// the fields of the element objects
+					e.needEref()
+					e.allFields(sl.Elem(), func(owner types.Type, f *types.Var) {
+						fk := fieldKey(owner, f.Name())
+						e.heapInit(fk, f.Type())
+						out = append(out, modLoc{key: fk, earr: SRef(v.T), lo: SOff(v.T), hi: Add(SOff(v.T), SCap(v.T))})
+					})
+					continue
+				}
 				key := elemKey(sl.Elem())
 				e.heapInit(key, sl.Elem())
 				out = append(out, modLoc{key: key, ref: SRef(v.T), lo: SOff(v.T), hi: Add(SOff(v.T), SCap(v.T)), isElem: true})
@@ -712,6 +795,41 @@ func (e *Exec) havocLocs(st *State, locs []modLoc, p token.Pos) {
 			if e.dry > 0 {
 				e.dryStores = append(e.dryStores, dryStore{l.key, e.fresh("anyref", SInt)})
 			}
+			continue
+		}
+		if l.earr.S != "" {
+			// field l.key of the element objects [lo,hi) of a slice of structs
+			saved := st.pc
+			e.syncCtx(saved.S)
+			n0 := len(e.assumps)
+			e.addPC(st, l.when())
+			if !(e.noFrame || e.contract == nil) {
+				allowed := []Term{Ge(l.earr, e.alloc0), Ge(l.lo, l.hi)}
+				for _, mr := range e.modRefs {
+					if mr.key != l.key {
+						continue
+					}
+					if mr.any {
+						allowed = append(allowed, True)
+					} else if mr.earr.S != "" {
+						allowed = append(allowed, And(mr.when(), Eq(l.earr, mr.earr), Le(mr.lo, l.lo), Le(l.hi, mr.hi)))
+					}
+				}
+				e.oblige(st, "frame", "", Or(allowed...), "range store allowed by modifies: elements' "+l.key, p)
+			}
+			st.pc = saved
+			e.reparentSince(n0, saved.S)
+			if e.dry > 0 {
+				e.dryStores = append(e.dryStores, dryStore{l.key, l.earr})
+			}
+			x := Term{"x!o", SInt}
+			nh := e.fresh("fldmap", m.sort)
+			keep := Implies(Not(And(l.when(), isErefIn(x, l.earr, l.lo, l.hi))), Eq(Select(nh, x, m.vsort), Select(h, x, m.vsort)))
+			e.assumps = append(e.assumps, fmt.Sprintf("(assert (forall ((x!o Int)) (! %s :pattern (%s))))", keep.S, Select(nh, x, m.vsort).S))
+			if rf := e.rangeFact(Select(nh, x, m.vsort), m.vtype); rf.S != "true" {
+				e.assumps = append(e.assumps, fmt.Sprintf("(assert (forall ((x!o Int)) (! %s :pattern (%s))))", rf.S, Select(nh, x, m.vsort).S))
+			}
+			st.heap[l.key] = nh
 			continue
 		}
 		if l.cond.S != "" && l.cond.S != "true" {
